@@ -21,6 +21,7 @@ import Driver.Parse
 import EasyMl.Model.Numeric
 import Driver.C19User
 import Driver.C19Wrap
+import EasyMl.Model.TraitReq
 
 namespace Driver.C19
 open EasyMl EasyMl.Num
@@ -229,6 +230,16 @@ def step (s : State) (toks : List String) : State × String :=
     | none => (s, "bad-op")
   | ["@", "fop", _ty, _op, _a, _b] => (s, "agree")
   | ["@", "fident", _ty, _a] => (s, "ident-ok")
+  | ["@", "traitreq", which] =>
+    -- the impls a user type must supply (model of the blanket-impl supertraits of numeric.rs)
+    let req := if which == "real" then TraitReq.usableReal else TraitReq.usableNumeric
+    (s, " ".intercalate (req.map TraitReq.Impl.name))
+  | ["@", "traitcheck", which, names] =>
+    -- is a type supplying exactly the named impls accepted?
+    let req := if which == "real" then TraitReq.usableReal else TraitReq.usableNumeric
+    let all := TraitReq.usableReal
+    let caps := all.filter fun i => (splitComma names).contains i.name
+    (s, if TraitReq.satisfies caps req then "accepted" else "rejected")
   | "@" :: "user" :: rest => (s, C19User.answer rest)
   | "@" :: "userw" :: rest => (s, C19Wrap.answerCounting rest)
   | "@" :: cmd :: rest =>
